@@ -131,11 +131,34 @@ Theorem rv_add_and_jump_sel : forall im pc t i a j s,
     step im (pc + isize c1) c2 (rset s TEMP (Some (wrap (a + i)))) = Jump (rset s TEMP (Some (wrap (a + i)))) j.
 Proof.
   intros im pc t i a j s Ht Hfit Heven Hj. exists (ADDI TEMP t i), (JALR ZERO TEMP 0).
-  split; [reflexivity|]. split.
+  split; [cbn [b_add_and_jump rv_backend]; unfold r_add_and_jump; change (addi_fits i) with (fits12 i); rewrite Hfit; reflexivity|]. split.
   - cbn [step]. rewrite Hfit. unfold need. now rewrite Ht.
   - cbn [step]. unfold ea, need. change (fits12 0) with true. cbv iota.
     rewrite rget_rset_same by (vm_compute; discriminate).
     unfold goto_addr. change (rset (rset s TEMP (Some (wrap (a + i)))) ZERO (Some (pc + isize (ADDI TEMP t i) + 4)))
+      with (rset s TEMP (Some (wrap (a + i)))).
+    replace (wrap (a + i) + 0 - (wrap (a + i) + 0) mod 2) with (wrap (a + i)) by (rewrite Z.add_0_r, Heven; lia).
+    now rewrite Hj.
+Qed.
+
+(* add_and_jump with an offset beyond the 12-bit immediate (repair of the finding "tag dispatch immediate", docs/C14.md):
+   TEMP <- i; TEMP <- t + TEMP; jump to it.  Only TEMP is written. *)
+Theorem rv_add_and_jump_big_sel : forall im pc pc2 pc3 t i a j s,
+  rget s t = Some a -> t <> TEMP -> fits12 i = false -> wrap (a + i) mod 2 = 0 ->
+  PM.find (key (wrap (a + i))) (index_at im) = Some j ->
+  exists c1 c2 c3, b_add_and_jump rv_backend t i = [c1; c2; c3] /\
+    step im pc c1 s = Next (rset s TEMP (Some i)) /\
+    step im pc2 c2 (rset s TEMP (Some i)) = Next (rset s TEMP (Some (wrap (a + i)))) /\
+    step im pc3 c3 (rset s TEMP (Some (wrap (a + i)))) = Jump (rset s TEMP (Some (wrap (a + i)))) j.
+Proof.
+  intros im pc pc2 pc3 t i a j s Ht NT Hfit Heven Hj. exists (LI TEMP i), (ADD TEMP t TEMP), (JALR ZERO TEMP 0).
+  split; [cbn [b_add_and_jump rv_backend]; unfold r_add_and_jump; change (addi_fits i) with (fits12 i); rewrite Hfit; reflexivity|].
+  split; [reflexivity|]. split.
+  - cbn [step]. unfold arith3, need. rewrite rget_rset_other by congruence. rewrite Ht.
+    rewrite rget_rset_same by (vm_compute; discriminate). rewrite rset_rset. reflexivity.
+  - cbn [step]. unfold ea, need. change (fits12 0) with true. cbv iota.
+    rewrite rget_rset_same by (vm_compute; discriminate).
+    unfold goto_addr. change (rset (rset s TEMP (Some (wrap (a + i)))) ZERO (Some (pc3 + 4)))
       with (rset s TEMP (Some (wrap (a + i)))).
     replace (wrap (a + i) + 0 - (wrap (a + i) + 0) mod 2) with (wrap (a + i)) by (rewrite Z.add_0_r, Heven; lia).
     now rewrite Hj.
